@@ -32,6 +32,8 @@ PANICS = {
     "core::panicking::unreachable_display": ("panic", "always panics"),
     "core::slice::<impl [T]>::sort_unstable_by": ("sort", "may panic only if the comparator is not a total order (or panics itself)"),
     "core::slice::<impl [T]>::sort_by": ("sort", "may panic only if the comparator is not a total order"),
+    "core::slice::<impl [T]>::sort_unstable_by_key": ("sort", "orders by Ord of the key: may panic only if the key function panics or the key's Ord is not total"),
+    "core::slice::<impl [T]>::sort_by_key": ("sort", "orders by Ord of the key: may panic only if the key function panics or the key's Ord is not total"),
     "core::char::methods::<impl char>::encode_utf8": ("encode_utf8", "panics iff the buffer is shorter than len_utf8 (<= 4)"),
 }
 
